@@ -123,6 +123,31 @@ pub fn run(env: &Env) -> Report {
             if rep.samples.len() < 3 { if let Obs::Full { cands, aux, .. } = &s.last { rep.sample(json!({"composed": aux, "opts": o.bits_str(), "candidates": cands})); } }
             s.finish(&mut t); s.clear_events();
         }
+        // compositions WITHOUT a letter: one and two punctuation / symbol keys (the composed text is then often the raw key text itself:
+        // the raw keys may not be listed a second time), alone and next to a letter, in 4 of the 16 settings per unit
+        {
+            let marks: Vec<char> = "`~!@#$%^&*()-_=+[]{}\\|;:'\",.<>/?".chars().collect();
+            let mut n = 0usize;
+            for &a in &marks { for b in std::iter::once(None).chain(marks.iter().map(|c| Some(*c))) { for w in ["", "k"] {
+                n += 1; if n % nunits != ui { continue; }
+                let txt: String = match b { Some(b) => format!("{}{}{}", a, w, b), None => format!("{}{}", w, a) };
+                for ci in [(n / nunits) % 16, (n / nunits + 4) % 16, (n / nunits + 6) % 16, (n / nunits + 15) % 16] {
+                    if ci >= ctxs.len() { continue; }
+                    let (_, s) = &mut ctxs[ci];
+                    let mut typed = String::new();
+                    for c in txt.chars() {
+                        let code = match code_for_char(c) { Some(k) => k, None => break };
+                        let ob = s.key(&mut t, code, 0, 0); typed.push(c);
+                        let buffer = match &ob { Obs::Full { aux, .. } => aux.clone(), _ => String::new() };
+                        let ctx = json!({"stream": "c15", "layout": s.layout, "opts": s.opts.bits_str(), "events": s.events});
+                        let so = s.opts;
+                        check_fixed_list(env, &mut rep, &so, &all_words, &buffer, &typed, false, &ob, &ctx);
+                        rep.eval(Some(&format!("marks|{}|{}", so.bits_str(), typed))); rep.count("letterless-composition-key");
+                    }
+                    s.finish(&mut t); s.clear_events();
+                }
+            } } }
+        }
         rep.add("untypeable-words-skipped", untypeable);
         t.flush();
         rep
@@ -249,7 +274,13 @@ pub fn run_c16(env: &Env) -> Report {
                         let cut = 1 + rng.below(txt.chars().count() - 1);
                         let mut pre = String::new();
                         for (ci, c) in txt.chars().enumerate() {
-                            if ci == cut { let mut o2 = s.opts; o2.ansi = !o2.ansi; s.update(&mut t, PHONETIC, o2); }
+                            if ci == cut {
+                                let mut o2 = s.opts; o2.ansi = !o2.ansi; s.update(&mut t, PHONETIC, o2);
+                                // (a key WITHOUT a character right after the switch re-serves the list computed before it in the fixed method: the
+                                //  property speaks of texts typed under a configuration, not of that moment — pressed for the model
+                                //  correspondence, not held to the oracle; DESIGN §10.3)
+                                if wi % 2 == 0 { s.key(&mut t, 3612, 0, 0); rep.count("midword-ansi-switch-ignored-key"); }
+                            }
                             pre.push(c); let ob = s.key(&mut t, code_for_char(c).unwrap(), 0, 0);
                             let ctx = json!({"stream": "c16", "layout": PHONETIC, "opts": s.opts.bits_str(), "text": pre, "events": s.events}); let so = s.opts;
                             check_ansi(env, &mut rep, &so, &pre, &ob, &ctx); rep.eval(Some(&format!("pt|{}|{}|{}", s.opts.bits_str(), pre, cut))); rep.count("midword-ansi-switch-key");
@@ -264,7 +295,10 @@ pub fn run_c16(env: &Env) -> Report {
                         let cut = 1 + rng.below(keys.len() - 1);
                         let mut typed = String::new();
                         for (ci, (code, md)) in keys.iter().enumerate() {
-                            if ci == cut { let mut o2 = s.opts; o2.ansi = !o2.ansi; let lp = s.layout.clone(); s.update(&mut t, &lp, o2); }
+                            if ci == cut {
+                                let mut o2 = s.opts; o2.ansi = !o2.ansi; let lp = s.layout.clone(); s.update(&mut t, &lp, o2);
+                                if wi % 2 == 0 { s.key(&mut t, 3612, 0, 0); rep.count("midword-ansi-switch-ignored-key"); }
+                            }
                             let ob = s.key(&mut t, *code, *md, 0); if let Some(k) = KEYS.iter().find(|k| k.1 == *code) { if let Some(ch) = k.2 { typed.push(ch); } }
                             let ctx = json!({"stream": "c16", "layout": s.layout, "opts": s.opts.bits_str(), "events": s.events}); let so = s.opts;
                             check_ansi(env, &mut rep, &so, &typed, &ob, &ctx); rep.eval(Some(&format!("ft|{}|{}|{}", s.opts.bits_str(), typed, cut))); rep.count("midword-ansi-switch-key");
